@@ -60,6 +60,10 @@ var hashHeavy = []string{
 	"def hh%[1]d():\n    mx = {1: \"a\", \"1\": \"b\", (1, \"a-long-string-over-12-bytes\"): \"c\", 1.5: \"d\", True: \"e\", \"true-true-true-true\": \"f\", None: \"g\"}\n    mx.pop(1)\n    mx[1] = \"again\"\n    print(mx, json.encode({str(k): v for k, v in mx.items()}))\n    return mx\nhr%[1]d = hh%[1]d()\n",
 	"hr%[1]d = struct(zeta_field_name_long=1, a=2, mmmmmmmmmmmmmmm=3, b=[4])\nprint(hr%[1]d, dir(hr%[1]d), json.encode(hr%[1]d), dir(json), dir(math), dir(time), dir(\"\"), dir([]), dir({}), dir(b\"\"))\n",
 	"hr%[1]d = [time.now(), time.now() - time.now(), str(time.now().unix)]\nprint(hr%[1]d)\n",
+	// attribute listings of values of every library type (a listing built from a shared or cached slice shows up
+	// as a difference between the first and a later execution in the same process)
+	"hr%[1]d = [dir(time.now()), dir(time.now() - time.now()), dir(struct(b=1, a=2)), dir(json), dir(math), dir(time), dir(()), dir([]), dir({}), dir(range(3)), dir(len), dir(\"\".join), dir(lambda: 0), dir(1), dir(1.5), dir(None), dir(True)]\nprint(hr%[1]d)\nprint(dir(time.now()), dir(time.now() - time.now()))\n",
+	"hr%[1]d = [getattr(time.now(), q) for q in dir(time.now()) if q in (\"year\", \"month\", \"unix\", \"nanosecond\")] + [str(getattr(time.now() - time.now(), q)) for q in dir(time.now() - time.now())]\nprint(hr%[1]d, time.parse_duration(\"1h5m\"), time.time(year=2024, month=2, day=29), time.from_timestamp(1700000000, 5), time.is_valid_timezone(\"UTC\"))\n",
 }
 
 func (c03) Generate(seed uint64, i int, tier string) *Scenario {
@@ -103,6 +107,13 @@ func (c03) Generate(seed uint64, i int, tier string) *Scenario {
 			continue
 		}
 		block := fmt.Sprintf(hashHeavy[t], 100+k, r.Range(2, 4), r.Pick3(9, 40, 200))
+		at := len(loads) + r.Intn(len(prog)-len(loads)+1)
+		prog = append(prog[:at], append([]string{block}, prog[at:]...)...)
+	}
+	// randomly generated hash-table exercises (operation sequences over sets and
+	// dicts of long-string keys, every result printed)
+	for k, nx := 0, r.Pick3(0, 1, 2); k < nx; k++ {
+		block := hashExercise(r, 200+k, sc.D.Set)
 		at := len(loads) + r.Intn(len(prog)-len(loads)+1)
 		prog = append(prog[:at], append([]string{block}, prog[at:]...)...)
 	}
